@@ -825,6 +825,8 @@ func evalActionSet(node *ActionExpression, env *Environment) Object {
 			return errObj
 		}
 
+		markRootModified(indexField, env)
+
 		return UNDEFINED
 	}
 
@@ -855,6 +857,8 @@ func evalActionAdd(node *ActionExpression, env *Environment) Object {
 			return newError("an operand in the update expression has an incorrect data type")
 		}
 
+		env.MarkModified(id.Value)
+
 		return addObj.Add(val)
 	}
 
@@ -884,6 +888,8 @@ func evalActionDelete(node *ActionExpression, env *Environment) Object {
 		if !ok {
 			return newError("an operand in the update expression has an incorrect data type")
 		}
+
+		env.MarkModified(id.Value)
 
 		return addObj.Delete(val)
 	}
@@ -928,11 +934,28 @@ func evalActionRemove(node *ActionExpression, env *Environment) Object {
 		}
 
 		env.MarkToCompact(obj)
+		markRootModified(indexField, env)
 
 		return UNDEFINED
 	}
 
 	return newError("invalid remove to: %s", node.String())
+}
+
+// markRootModified records that the attribute at the root of the document path changed
+func markRootModified(exp Expression, env *Environment) {
+	for {
+		switch node := exp.(type) {
+		case *Identifier:
+			env.MarkModified(node.Value)
+
+			return
+		case *IndexExpression:
+			exp = node.Left
+		default:
+			return
+		}
+	}
 }
 
 func evalAction(node *ActionExpression, env *Environment) Object {
